@@ -1174,6 +1174,16 @@ def arr_attr(it, a, attr):
             else:
                 a.elem = lambda i: v
         return B(fill)
+    if attr == 'base':
+        # ndarray.base: the owner for views; for the result of advanced indexing numpy may or may not report an internal temporary
+        # (implementation detail: a[:, idx] has a non-None base although it is a copy) -> unspecified, both outcomes are explored
+        if isinstance(a, LArr):
+            if a.view_of is not None:
+                return a.view_of[0]
+            if a.meta.get('from_adv_index'):
+                return Obj(None, {}, tag='opaque_base') if it.truth(it.ctx.fresh('adv_base_reported', 'bool')) else None
+            return None
+        return wrap(a.data.base) if a.data.base is not None else None
     if attr == 'nbytes' or attr == 'itemsize':
         raise Unsupported('byte-level attribute')
     if attr in ('add_sensitivity',):
@@ -1228,8 +1238,10 @@ def ns_attr(it, ns, name):
         if name == 'catch_warnings':
             return T.Builtin('catch_warnings', lambda *a, **k: None)
     if n == 'copy':
-        if name in ('deepcopy', 'copy'):
-            return T.Builtin('copy.' + name, lib_deepcopy, wants_interp=True)
+        if name == 'deepcopy':
+            return T.Builtin('copy.deepcopy', lib_deepcopy, wants_interp=True)
+        if name == 'copy':
+            return T.Builtin('copy.copy', lib_copy, wants_interp=True)
     if n == 'sys':
         if name == 'byteorder':
             return 'little'
@@ -1312,7 +1324,25 @@ def lib_deepcopy(it, x, memo=None):
     return x
 
 
-DEEPCOPY = {}
+DEEPCOPY = {'dtype': lambda it, x: x, 'ufunc': lambda it, x: x, 'opaque_base': lambda it, x: x}
+
+
+def lib_copy(it, x):
+    """copy.copy: shallow - a new container/object whose fields refer to the SAME inner objects (arrays are copied: ndarray.__copy__)"""
+    if is_arr(x):
+        return lib_deepcopy(it, x)
+    if isinstance(x, list):
+        return list(x)
+    if isinstance(x, dict):
+        return dict(x)
+    if isinstance(x, Obj):
+        if x.cls is not None:
+            f = x.cls.find('__copy__')
+            if f is not None:
+                return it.call(f, [x])
+            return Obj(x.cls, dict(x.fields))
+        raise Unsupported(f'copy of {x.tag}')
+    return x
 
 
 # np.linalg
